@@ -95,6 +95,10 @@ def run_search(ctx):
     sched, ns = harvest(ctx)
     trace = ctx.path("search.ndjson")
     ctx.run([fan, "search", sched, trace, str(ctx.seed), "1"], timeout=3000)
+    trace1 = ctx.path("search-1p.ndjson")      # and on a single P (see run_size)
+    ctx.run([fan, "search", sched, trace1, str(ctx.seed + 1), "3" if quick else "1"], timeout=3000, env={"GOMAXPROCS": "1"})
+    with open(trace, "a") as f:
+        f.write(open(trace1).read())
     viols, n = vlib.validate_trace(ctx, "FanOutTrace", "FanOutTrace.cfg", trace, lambda l: True, chunk_events=2000)
     evs = report(ctx, trace, viols, "Dataset.Search under forced schedules")
     nf = sum(e["forced"] for e in evs)
@@ -142,6 +146,12 @@ def run_size(ctx):
     sched, ns = harvest(ctx)
     trace = ctx.path("size.ndjson")
     ctx.run([fan, "size", sched, trace, str(ctx.seed), "1"], timeout=3000)
+    # the same schedules on a single P: goroutines then start in the runtime's LIFO order (the helper that closes
+    # the channel runs before the lookups it waits for), which many cores never show
+    trace1 = ctx.path("size-1p.ndjson")
+    ctx.run([fan, "size", sched, trace1, str(ctx.seed + 1), "3" if quick else "1"], timeout=3000, env={"GOMAXPROCS": "1"})
+    with open(trace, "a") as f:
+        f.write(open(trace1).read())
     viols, n = vlib.validate_trace(ctx, "FanOutTrace", "FanOutTrace.cfg", trace, lambda l: True, chunk_events=2000)
     evs = report(ctx, trace, viols, "Dataset.SizeInfo under forced schedules")
     ctx.log("SizeInfo: %d of %d TLC schedules forced on the real Dataset: %d failed checks" % (n, ns, len(viols)))
